@@ -61,3 +61,10 @@ def run(ctx):
         jobrules.recv_cancel_safe(ctx, "R07.9")
     except Skip:
         pass
+
+    ctx.rule("R07.10", "the job task cannot be brought down by a duration: no run-time duration is added to an Instant with the panicking operator "
+                       "(a panic in the job task skips the job-gone flag, so no outstanding ticket would ever resolve; shared with R06.11)")
+    try:
+        jobrules.no_panicking_instant_arith(ctx, "R07.10")
+    except Skip:
+        pass
